@@ -10,7 +10,7 @@ CLAIMED = {
 }
 
 CLAIMED["C19"] = dict(
-   text="The counter-style symbol algorithms (cyclic, fixed, symbolic, alphabetic, numeric, additive), reverse, Validate and fallback are under contract: no panic for any integer and any symbol list (index, division, strings.Repeat count), loops terminate (decreases), cyclic picks the residue of value-1 modulo the number of symbols (lemma), fixed/symbolic results as CSS Counter Styles 3 defines, reverse reverses, Validate enforces the symbol-count minima. The counter scoping in boxes.UpdateCounters and the extends/fallback graph in renderValue are NOT under contract.",
+   text="The counter-style symbol algorithms (cyclic, fixed, symbolic, alphabetic, numeric, additive), reverse, Validate and fallback are under contract: no panic for any integer and any symbol list (index, division, strings.Repeat count), loops terminate (decreases), cyclic picks the residue of value-1 modulo the number of symbols (lemma), fixed/symbolic results as CSS Counter Styles 3 defines, reverse reverses, Validate enforces the symbol-count minima. renderValue: range `auto` bounds per system, the systems that use a negative sign, the default sign, dispatch of each system to its algorithm, fallback to the style's own fallback (not decimal) when the range or the fixed/additive algorithm rejects the value, pad length. Termination over fallback/extends graphs is checked by an exhaustive BOUNDED enumeration (4096 graphs on three styles), labelled bounded. The counter scoping in boxes.UpdateCounters is NOT under contract.",
    note="machine-int-as-math; strings.Repeat/Join, fmt.Errorf assumed (extern); strings modelled as byte arrays with an uninterpreted equality; renderValue/resolveCounter/UpdateCounters unverified",
    ref="DESIGN.md §4 C19")
 
@@ -19,16 +19,16 @@ CLAIMED["C10"] = dict(
    note="float-as-real; interface dispatch of MaybeFloat.V and Box.Box() by assumed (listed) interface contracts; style accessors assumed pure; only the listed kernels are verified, not the layout recursion around them",
    ref="DESIGN.md §4 C10")
 CLAIMED["C11"] = dict(
-   text="Only the alignment kernel is decided: textAlign is under contract (offset 0 when the line does not fit or for start/justify, (available-width)/2 for center, available-width for end, left/right mapped through direction, text-align-last on the last line) and proved for all inputs. Greedy line fitting in the text engines is out of reach and NOT claimed.",
+   text="Only the alignment kernel is decided: textAlign is under contract (offset 0 when the line does not fit or for start/justify, (available-width)/2 for center, available-width for end, left/right mapped through direction, text-align-last on the last line) and proved for all inputs. inlineBoxVerticality keeps running extrema (every assignment raises maxY / lowers minY: a line box is as tall as its contents, nested inline contents cannot shrink it). Greedy line fitting in the text engines is out of reach and NOT claimed.",
    note="float-as-real; style accessors assumed pure functions of the style; justifyLine/logger calls havoc the heap (the function claims no frame); splitFirstLine and the shaping engines unverified",
    ref="DESIGN.md §4 C11")
 CLAIMED["C12"] = dict(
-   text="Page geometry and break classification kernels are under contract and proved: pageWidthOrHeight (css-page-3 page-box equation margin+padding/border+inner+margin == containing block whenever something was auto, equal auto margins, given values kept) as call-site assertions at the write-back, overflowsPage (exact formula, monotone in y), forcePageBreak / avoidPageBreak value sets. Page type selection (remakePage), blockLevelPageBreak, orphans/widows and the 'never below the page' part are NOT yet under contract.",
+   text="Page geometry and break classification kernels are under contract and proved: pageWidthOrHeight (css-page-3 page-box equation margin+padding/border+inner+margin == containing block whenever something was auto, equal auto margins, given values kept) as call-site assertions at the write-back, overflowsPage (exact formula, monotone in y), forcePageBreak / avoidPageBreak value sets. remakePage page-type selection, pageTypeMatch (:nth(an+b) sound and complete) and blockLevelPageName (a break is forced when the name the previous sibling ENDS on differs from the name the next one STARTS on) are under contract too. blockLevelPageBreak, orphans/widows and the 'never below the page' part are NOT under contract.",
    note="float-as-real; orientedBoxITF.baseBox assumed pure/non-nil; restoreBoxAttributes unverified (interface call, havoc)",
    ref="DESIGN.md §4 C12")
 
 CLAIMED["C06"] = dict(
-   text="css/parser tokenizer.go and parser.go are under contract (55 functions, ~1400 obligations): every index/slice/nil/type-assertion is safe for all byte inputs, every loop and the recursion of consumeValueList terminate (measure len-pos: each step consumes >= 1 byte, which needs the proved NUL-free invariant established by Tokenize), the ident-start / name-start predicates equal the CSS Syntax 3 definitions, and error recovery is exact: a nested value list ends at EOF or just after its own closing delimiter, consumeRemnants / declarations / at-rules / qualified rules stop just after the FIRST top-level ';' or {} block (quantified over the skipped tokens). Token VALUES (escape decoding, numbers, string building) and colors.go are NOT decided.",
+   text="css/parser tokenizer.go and parser.go are under contract (55 functions, ~1400 obligations): every index/slice/nil/type-assertion is safe for all byte inputs, every loop and the recursion of consumeValueList terminate (measure len-pos: each step consumes >= 1 byte, which needs the proved NUL-free invariant established by Tokenize), the ident-start / name-start predicates equal the CSS Syntax 3 definitions, and error recovery is exact: a nested value list ends at EOF or just after its own closing delimiter, consumeRemnants / declarations / at-rules / qualified rules stop just after the FIRST top-level ';' or {} block (quantified over the skipped tokens). parseDeclaration recognises `!important` as CSS Syntax 3 §5.4.6 says (white space and comments do not leave the state). Token VALUES (escape decoding, numbers, string building) and colors.go are NOT decided.",
    note="assumed extern contracts: utf8.DecodeRune, bytes.HasPrefix/Index/LastIndexByte/Count/ReplaceAll, strings.ContainsRune, strings.Builder, strconv, the two anchored regexps of the package; Token.Kind/Pos assumed pure; machine-int-as-math",
    ref="DESIGN.md §4 C06")
 
@@ -38,22 +38,22 @@ CLAIMED["C20"] = dict(
    ref="DESIGN.md §4 C20")
 
 CLAIMED["C03"] = dict(
-   text="The ordering machinery of the cascade is under contract and proved: declarationPrecedence is the CSS table ua < user < author < author! < user!; Specificity.Less/Add are lexicographic order and component sum; weight.Less is the non-strict lexicographic order on (precedence, specificity) (lemmas: total, transitive, reflexive, so later declarations win ties); at both insertion sites of newStyleFor the stored weight is (declarationPrecedence(origin, important), specificity) and a slot is replaced only when empty or when the new weight is >= the old one; evaluateMediaQuery matches `all` or the device type; presentational hints get specificity (0,0,0). The clause 'a style attribute outranks every selector' FAILS on the real code and is recorded as a known finding (style attributes get (1,0,0)). Selector matching (C05), @import/nested rules and addPageDeclarations are NOT under contract.",
+   text="The ordering machinery of the cascade is under contract and proved: declarationPrecedence is the CSS table ua < user < author < author! < user!; Specificity.Less/Add are lexicographic order and component sum; weight.Less is the non-strict lexicographic order on (precedence, specificity) (lemmas: total, transitive, reflexive, so later declarations win ties); at both insertion sites of newStyleFor the stored weight is (declarationPrecedence(origin, important), specificity) and a slot is replaced only when empty or when the new weight is >= the old one; evaluateMediaQuery matches `all` or the device type; presentational hints get specificity (0,0,0); matcher.match reports EVERY matching selector of every rule with its own specificity, pseudo-element and declarations (completeness proved with nested loop invariants). The clause 'a style attribute outranks every selector' FAILS on the real code and is recorded as a known finding (style attributes get (1,0,0)). Selector matching (C05), @import/nested rules and addPageDeclarations are NOT under contract.",
    note="known finding recorded in known_findings.txt; newStyleFor/findStyleAttributes are checked only at the listed call/map-update sites (their other obligations are unclaimed: havoc abstraction of maps, iterators and unknown callees); machine-int-as-math",
    ref="DESIGN.md §4 C03")
 
 CLAIMED["C18"] = dict(
-   text="The SVG path-data interpreter is under contract and proved for all argument lists: every command method of pathParser (moveTo/lineTo incl. implicit repetition, H/V, C/S/Q/T with smooth reflection, closepath, arcs) appends exactly the segments SVG 1.1 §8.3 defines, absolute vs relative, with the current point / sub-path start / last control point bookkeeping as representation invariants across argument groups; quadraticToCubic is degree elevation (Bezier identity lemma for all t); reflection is point reflection; an arc segment ends at the given end point and successive arc groups start where the previous one ended; consumeNumber/parsePoints accept the SVG number grammar without panicking and always make progress. Basic-shape outlines, viewBox/preserveAspectRatio mapping and reference-cycle handling are NOT under contract; the arc's 'lies on the given ellipse' clause is decided only for the end points (centre parameterisation uses sqrt/atan2, uninterpreted).",
+   text="The SVG path-data interpreter is under contract and proved for all argument lists: every command method of pathParser (moveTo/lineTo incl. implicit repetition, H/V, C/S/Q/T with smooth reflection, closepath, arcs) appends exactly the segments SVG 1.1 §8.3 defines, absolute vs relative, with the current point / sub-path start / last control point bookkeeping as representation invariants across argument groups; quadraticToCubic is degree elevation (Bezier identity lemma for all t); reflection is point reflection; an arc segment ends at the given end point and successive arc groups start where the previous one ended; consumeNumber/parsePoints accept the SVG number grammar without panicking and always make progress; the control point remembered after Q and C is the last one drawn; a gradient/pattern href is consumed before the referenced element is processed, and svg.Parse returns on every href graph over three definitions (BOUNDED enumeration, 125 graphs incl. cycles). Basic-shape outlines, viewBox/preserveAspectRatio mapping and reference-cycle handling are NOT under contract; the arc's 'lies on the given ellipse' clause is decided only for the end points (centre parameterisation uses sqrt/atan2, uninterpreted).",
    note="float-as-real; strconv.ParseFloat, math.Sqrt/Atan2/Sin/Cos assumed (extern/uninterpreted); drawing back end calls are not under contract (the proved object is the segment list the parser builds); machine-int-as-math",
    ref="DESIGN.md §4 C18")
 
 CLAIMED["C07"] = dict(
-   text="Absence of panics and termination are proved, for all inputs, for the parsers that are under contract as `nopanic` with loop/recursion measures: the whole CSS tokenizer and rule/declaration parsers (css/parser tokenizer.go, parser.go: shared with C06), the <An+B> parser (nth.go), the complete selector parser (css/selector/parser.go: every method of the hand-written recursive-descent parser incl. escapes, strings, attribute operators, pseudo-class arguments, nth), @page selector parsing (tree.parsePageSelectors, one defect found and fixed), the SVG number / point-list / path-data / opacity / url / viewBox parsers and the counter-style symbol algorithms. Property validators and shorthand expanders (css/validation), descriptor parsers, colour parsing, utils/urls.go data: handling and the HTML attribute readers are NOT under contract yet and are not decided by this check.",
+   text="Absence of panics and termination are proved, for all inputs, for the parsers that are under contract as `nopanic` with loop/recursion measures: the whole CSS tokenizer and rule/declaration parsers (css/parser tokenizer.go, parser.go: shared with C06), the <An+B> parser (nth.go), the complete selector parser (css/selector/parser.go: every method of the hand-written recursive-descent parser incl. escapes, strings, attribute operators, pseudo-class arguments, nth), @page selector parsing (tree.parsePageSelectors, one defect found and fixed), the SVG number / point-list / path-data / opacity / url / viewBox / preserveAspectRatio parsers (one defect found and fixed), data: URI splitting (parseDataURL, isHex, unhex), the HTML integer attribute reader, getKeyword/getLength/getAngle, ParseFunction, and the counter-style symbol algorithms. Property validators and shorthand expanders (css/validation), descriptor parsers, colour parsing, utils/urls.go data: handling and the HTML attribute readers are NOT under contract yet and are not decided by this check.",
    note="assumed: extern contracts of strconv/strings/bytes/utf8/regexp in contracts/extern.spec; token well-formedness of caller-supplied token slices (no nil token, identifiers/numbers with non-empty text) is a precondition of ParseNth/parsePageSelectors, established by the tokenizer but not proved through Compound values; one waived index obligation in matchInt (regexp capture-group count); machine-int-as-math; stack depth of recursion not modelled",
    ref="DESIGN.md §4 C07")
 
 CLAIMED["C05"] = dict(
-   text="Decided by proof for the parts of the selector engine that are under contract: specificity of every selector kind (tag (0,0,1), class/attribute/pseudo-class (0,1,0), id (1,0,0), never-match 0; a complex selector adds both sides; :is/:not/:has take the lexicographic maximum of their arguments (upper bound and attained, any number of arguments); a compound selector sums its parts plus (0,0,1) for a pseudo-element, exact for up to three simple selectors), the attribute operators ^= $= *= ~= with an empty value match nothing (defect found and fixed) and ~= with a value containing white space matches nothing, |= is 'equal or followed by -', the an+b test of :nth-*() is sound and complete for every a != 0 incl. negative steps (exists k >= 0 with a*k + b = index), asciiSet.index finds the first member, the matchers' sibling walks are memory safe. Tree-relative matching (combinators over the DOM, sibling counting, :empty, :has), :nth index computation from the sibling list, serialisation round trip and case-insensitive matching are NOT under contract.",
+   text="Decided by proof for the parts of the selector engine that are under contract: specificity of every selector kind (tag (0,0,1), class/attribute/pseudo-class (0,1,0), id (1,0,0), never-match 0; a complex selector adds both sides; :is/:not/:has take the lexicographic maximum of their arguments (upper bound and attained, any number of arguments); a compound selector sums its parts plus (0,0,1) for a pseudo-element, exact for up to three simple selectors), the attribute operators ^= $= *= ~= with an empty value match nothing (defect found and fixed) and ~= with a value containing white space matches nothing, |= is 'equal or followed by -', the an+b test of :nth-*() is sound and complete for every a != 0 incl. negative steps (exists k >= 0 with a*k + b = index), asciiSet.index finds the first member, the matchers' sibling walks are memory safe; structure of matching: a compound selector matches iff every part does, a selector list iff some selector does, child combinator = right side on the element and left side on its parent, the complex-selector and :is/:not/:has dispatch binds each combinator / name to its matcher, :root and type selectors as defined, every word of ~= compared under the same case rule. The :nth-* sibling index is checked by an exhaustive BOUNDED enumeration (child lists <= 4), labelled bounded. Tree-relative matching (combinators over the DOM, sibling counting, :empty, :has), :nth index computation from the sibling list, serialisation round trip and case-insensitive matching are NOT under contract.",
    note="Sel.Specificity assumed a pure function of the (immutable) selector value with non-negative components (re-proved for every implementation in the package); asciiSet.contains uninterpreted (bit operations); strings.HasPrefix/HasSuffix/Contains/EqualFold/TrimSpace assumed (extern); matching against html.Node trees is not modelled; machine-int-as-math",
    ref="DESIGN.md §4 C05")
 
